@@ -1,11 +1,14 @@
 """C02 finality."""
-from props import simcommon
-HARNESS = ["sim"]
+from props import simcommon, storehgcommon
+HARNESS = ["sim", "storehg"]
 ASSUMPTIONS = ["model: in-memory store (pointer-shared blocks); the Badger DB copy is covered by C16/C11. Flavour latesigs evaluates the oracle "
                "(consecutive indexes, store and database copy = deliveries, LastBlockIndex = highest delivered) on a BadgerStore node with "
                "cache 100 after > 100 blocks and late signatures for evicted blocks; that node is not model-compared",
                "HTTP service serialisation is not modelled (it only calls Store.GetBlock)"]
 def run(ctx):
+    from concurrent.futures import ThreadPoolExecutor
+    ex = ThreadPoolExecutor(max_workers=1)
+    hg_future = ex.submit(storehgcommon.run, ctx)   # alongside the cmd/sim histories
     cov, findings, diffs = None, [], []
     for fl in ("static", "dyn", "latesigs", "split", "splitfaults"):
         res = simcommon.run(ctx, fl)
@@ -18,4 +21,12 @@ def run(ctx):
             cov["evaluations"] += c["evaluations"]; cov["distinct_nontrivial"] += c["distinct_nontrivial"]
             cov["histories"] += c["histories"]; cov["traces_validated_against_impl"] += c["traces_validated_against_impl"]
             cov["samples"] += c["samples"][:1]; cov["histogram_" + fl] = c["histogram"]; cov["distribution_" + fl] = c["distribution"]
-    return dict(findings=findings, coverage=cov, corr_diffs=diffs)
+    hgres = hg_future.result()
+    ex.shutdown()
+    findings = storehgcommon.findings_for(hgres, "C02") + findings
+    hgcov = storehgcommon.coverage_from(hgres)
+    cov["evaluations"] += hgcov["totals"].get("c02_checks", 0)
+    cov["histories"] += hgcov["histories"]
+    cov["persistent_node"] = dict(histories=hgcov["histories"], caches=hgcov["caches"],
+                                  totals={k: v for k, v in hgcov["totals"].items() if k.startswith(("blk", "blocks", "deliveries", "c02", "evicted_blocks", "node_blk", "harness_blk", "a:x-"))})
+    return dict(findings=findings[:12], coverage=cov, corr_diffs=diffs)
